@@ -38,7 +38,7 @@ var srcC19 = []*g2lTarget{
 	},
 	{
 		// `fn` is the caller's callback; the remote branch (registry.ReferrerLister) is an oracle
-		file: c19File, recv: "repositoryClient", fn: "ListSignatures", leanName: "ListSignatures",
+		file: c19File, recv: "repositoryClient", fn: "ListSignatures", recvName: "c", leanName: "ListSignatures",
 		params:     "(w : World) (c : repositoryClient) (desc : ocispec.Descriptor) (fn : List ocispec.Descriptor → Option GoLite.Err)",
 		ret:        "Option GoLite.Err",
 		retOpt:     []bool{true},
@@ -48,7 +48,7 @@ var srcC19 = []*g2lTarget{
 		callSubst:  c19Calls,
 	},
 	{
-		file: c19File, recv: "repositoryClient", fn: "getSignatureBlobDesc", leanName: "getSignatureBlobDesc",
+		file: c19File, recv: "repositoryClient", fn: "getSignatureBlobDesc", recvName: "c", leanName: "getSignatureBlobDesc",
 		params:    "(w : World) (c : repositoryClient) (sigManifestDesc : ocispec.Descriptor)",
 		ret:       "ocispec.Descriptor × Option GoLite.Err",
 		retOpt:    []bool{false, true},
@@ -59,7 +59,7 @@ var srcC19 = []*g2lTarget{
 		callSubst: c19Calls,
 	},
 	{
-		file: c19File, recv: "repositoryClient", fn: "FetchSignatureBlob", leanName: "FetchSignatureBlob",
+		file: c19File, recv: "repositoryClient", fn: "FetchSignatureBlob", recvName: "c", leanName: "FetchSignatureBlob",
 		params:    "(w : World) (c : repositoryClient) (desc : ocispec.Descriptor)",
 		ret:       "Option Bytes × ocispec.Descriptor × Option GoLite.Err",
 		retOpt:    []bool{true, false, true},
@@ -78,7 +78,7 @@ var srcC19 = []*g2lTarget{
 		callSubst:  c19Calls,
 	},
 	{
-		file: c19File, recv: "repositoryClient", fn: "uploadSignatureManifest", leanName: "uploadSignatureManifest",
+		file: c19File, recv: "repositoryClient", fn: "uploadSignatureManifest", recvName: "c", leanName: "uploadSignatureManifest",
 		params:     "(w : World) (c : repositoryClient) (subject blobDesc : ocispec.Descriptor) (annotations : GoLite.Map String String)",
 		ret:        "ocispec.Descriptor × Option GoLite.Err",
 		retOpt:     []bool{false, true},
@@ -89,7 +89,7 @@ var srcC19 = []*g2lTarget{
 		callSubst:  c19Calls,
 	},
 	{
-		file: c19File, recv: "repositoryClient", fn: "PushSignature", leanName: "PushSignature",
+		file: c19File, recv: "repositoryClient", fn: "PushSignature", recvName: "c", leanName: "PushSignature",
 		params:    "(w : World) (c : repositoryClient) (mediaType : String) (blob : Bytes) (subject : ocispec.Descriptor) (annotations : GoLite.Map String String)",
 		ret:       "ocispec.Descriptor × ocispec.Descriptor × Option GoLite.Err",
 		retOpt:    []bool{false, false, true},
